@@ -261,43 +261,46 @@ func init() {
 		}
 	}
 	// compressed and uncompressed frames of one pair must share the receive queue
-	harn.Register(harn.Scenario{Property: "C13", Name: "fifo-compressed-mix", Run: func(ctx *harn.Ctx) *harn.Result {
-		return harn.Explore(ctx, harn.Sched{QuickBound: 1, ThoroughBound: 2, Preempt: false, Cache: true, Body: netBody(netOpts{skipB: 1}, func(nw *NetWorld) {
-			var errs []string
-			var got []string
-			rpid := nw.b.spawnProbe("R", probeCfg{onMsg: func(p *probe, from gen.PID, m any) error {
-				if b, ok := m.([]byte); ok {
-					got = append(got, fmt.Sprintf("m%d", b[0]))
-				}
-				return nil
-			}}, gen.ProcessOptions{})
-			spid := nw.a.spawnProbe("S", probeCfg{onMsg: func(p *probe, from gen.PID, m any) error {
-				for i, n := range []int{3000, 10, 2500, 12, 20} {
-					pl := mkPayload(n, 0)
-					pl[0] = byte(i + 1)
-					if err := p.Send(rpid, pl); err != nil {
-						errs = append(errs, err.Error())
+	// (also C03: one sender, one receiver, one priority - the receiver being on another node changes nothing)
+	for _, prop := range []string{"C13", "C03"} {
+		harn.Register(harn.Scenario{Property: prop, Name: "fifo-compressed-mix", Run: func(ctx *harn.Ctx) *harn.Result {
+			return harn.Explore(ctx, harn.Sched{QuickBound: 1, ThoroughBound: 2, Preempt: false, Cache: true, Body: netBody(netOpts{skipB: 1}, func(nw *NetWorld) {
+				var errs []string
+				var got []string
+				rpid := nw.b.spawnProbe("R", probeCfg{onMsg: func(p *probe, from gen.PID, m any) error {
+					if b, ok := m.([]byte); ok {
+						got = append(got, fmt.Sprintf("m%d", b[0]))
 					}
+					return nil
+				}}, gen.ProcessOptions{})
+				spid := nw.a.spawnProbe("S", probeCfg{onMsg: func(p *probe, from gen.PID, m any) error {
+					for i, n := range []int{3000, 10, 2500, 12, 20} {
+						pl := mkPayload(n, 0)
+						pl[0] = byte(i + 1)
+						if err := p.Send(rpid, pl); err != nil {
+							errs = append(errs, err.Error())
+						}
+					}
+					return nil
+				}}, gen.ProcessOptions{Compression: gen.Compression{Enable: true, Threshold: 1025}})
+				nw.connect()
+				if nw.ex.Failed() {
+					return
 				}
-				return nil
-			}}, gen.ProcessOptions{Compression: gen.Compression{Enable: true, Threshold: 1025}})
-			nw.connect()
-			if nw.ex.Failed() {
-				return
-			}
-			nw.ex.Thread("GO", func() { nw.a.n.Send(spid, "go") })
-			nw.Check = func() {
-				want := []string{"m1", "m2", "m3", "m4", "m5"}
-				if !inOrder(got, want) {
-					nw.ex.Fail("network-order-violated", "sender %d sent %v (frames above and below the compression threshold) to receiver %d; handled in the order %v", spid.ID, want, rpid.ID, got)
+				nw.ex.Thread("GO", func() { nw.a.n.Send(spid, "go") })
+				nw.Check = func() {
+					want := []string{"m1", "m2", "m3", "m4", "m5"}
+					if !inOrder(got, want) {
+						nw.ex.Fail("network-order-violated", "sender %d sent %v (frames above and below the compression threshold) to receiver %d; handled in the order %v", spid.ID, want, rpid.ID, got)
+					}
+					if len(got) != 5 && len(errs) == 0 {
+						nw.ex.Fail("network-message-lost", "sent 5, handled %v", got)
+					}
+					nw.Out("got=%v errs=%v", got, errs)
 				}
-				if len(got) != 5 && len(errs) == 0 {
-					nw.ex.Fail("network-message-lost", "sent 5, handled %v", got)
-				}
-				nw.Out("got=%v errs=%v", got, errs)
-			}
-		})})
-	}})
+			})})
+		}})
+	}
 
 	// receive-queue kernel: frames recorded once from a real sender are written one by one to the
 	// link of a stand-alone receiving connection (node B only) while the link reader and the
